@@ -1,10 +1,12 @@
 package rules
 
 import (
-		"fmt"
+	"encoding/json"
+	"fmt"
 	"os"
 	"path/filepath"
 	"runtime"
+	"sort"
 	"strings"
 	"sync"
 
@@ -77,6 +79,37 @@ func SelfTest(id, dir, verif string) SelfTestResult {
 	if err := yaml.Unmarshal(b, &ms); err != nil {
 		res.Broken = fmt.Sprintf("%s: %v", path, err)
 		return res
+	}
+	// every independent behaviour-preserving refactoring that touches one of the property's anchor files is a
+	// benign variant too (unless the YAML file already lists it)
+	listed := map[string]bool{}
+	for _, m := range ms {
+		if m.Patch != "" && m.Benign && len(m.Edits) == 0 {
+			listed[m.Patch] = true
+		}
+	}
+	anchors := anchorFiles(filepath.Join(verif, "properties.jsonl"), id)
+	if diffs, _ := filepath.Glob(filepath.Join(MutantsDir, "benign", "*.diff")); len(anchors) > 0 {
+		sort.Strings(diffs)
+		for _, d := range diffs {
+			rel := "benign/" + filepath.Base(d)
+			if listed[rel] {
+				continue
+			}
+			es, err := editsFromPatch(d)
+			if err != nil {
+				continue
+			}
+			touches := false
+			for _, e := range es {
+				if anchors[e.file] {
+					touches = true
+				}
+			}
+			if touches {
+				ms = append(ms, Mutant{Name: "benign corpus: " + filepath.Base(d), Patch: rel, Benign: true})
+			}
+		}
 	}
 	kf, _ := report.LoadKnown(filepath.Join(verif, "known_findings.json"))
 	fired, skipped, benignOK := 0, 0, 0
@@ -245,6 +278,31 @@ func overlayFor(dir string, m Mutant) (map[string][]byte, bool, error) {
 		ov[abs] = []byte(strings.Replace(s, e.find, e.replace, 1))
 	}
 	return ov, false, nil
+}
+
+// anchorFiles reads the anchor file list of one property from properties.jsonl.
+func anchorFiles(path, id string) map[string]bool {
+	out := map[string]bool{}
+	b, err := os.ReadFile(path)
+	if err != nil {
+		return out
+	}
+	for _, ln := range strings.Split(string(b), "\n") {
+		if !strings.Contains(ln, `"id": "`+id+`"`) && !strings.Contains(ln, `"id":"`+id+`"`) {
+			continue
+		}
+		var p struct {
+			Anchors struct {
+				Files []string `json:"files"`
+			} `json:"anchors"`
+		}
+		if json.Unmarshal([]byte(ln), &p) == nil {
+			for _, f := range p.Anchors.Files {
+				out[f] = true
+			}
+		}
+	}
+	return out
 }
 
 func firstLine(s string) string {
